@@ -198,3 +198,23 @@ def split_join_mismatch(node: ast.AST) -> list[tuple[ast.Call, str]]:
 def ambiguous_year_formats(node: ast.AST) -> list[ast.Constant]:
     """strptime/strftime formats containing %y: two-digit years 69-99 are read as 19xx."""
     return [c for c in ast.walk(node) if isinstance(c, ast.Constant) and isinstance(c.value, str) and "%y" in c.value]
+
+
+def filtering_constructs(fn: ast.AST) -> list[ast.AST]:
+    """Constructs by which a function that should hand on a whole collection could drop elements:
+    comprehension conditions, filter()/takewhile()/islice()-like calls, slices, loops that skip or stop, conditional yields."""
+    out: list[ast.AST] = []
+    for n in ast.walk(fn):
+        if isinstance(n, ast.comprehension) and n.ifs:
+            out.append(n.ifs[0])
+        elif isinstance(n, ast.Call) and ast.unparse(n.func).split(".")[-1] in ("filter", "filterfalse", "takewhile", "dropwhile", "islice", "compress"):
+            out.append(n)
+        elif isinstance(n, (ast.For, ast.While)):
+            for x in ast.walk(n):
+                if isinstance(x, (ast.Continue, ast.Break)):
+                    out.append(x)
+                elif isinstance(x, ast.If) and any(isinstance(y, (ast.Yield, ast.YieldFrom)) or (isinstance(y, ast.Call) and isinstance(y.func, ast.Attribute) and y.func.attr in ("append", "add", "extend")) for y in ast.walk(x)):
+                    out.append(x.test)
+        elif isinstance(n, ast.Subscript) and isinstance(n.slice, ast.Slice) and isinstance(n.ctx, ast.Load):
+            out.append(n)
+    return out
